@@ -140,7 +140,8 @@ def _masks(shape, off):
     idx = np.indices(shape).sum(axis=0) if len(shape) else np.zeros(())
     chk = ((idx + off) % 2).astype(float)
     tab = (V.posints(shape, off + 3, k=3) > 1).astype(float)
-    return [("checker", chk), ("antichecker", 1.0 - chk), ("table", tab)]
+    # ... and a weighting mask (entries other than 0/1: "applied entrywise" means multiplied once)
+    return [("checker", chk), ("antichecker", 1.0 - chk), ("table", tab), ("weighting", V.ints(shape, off + 5, 2).astype(float))]
 
 
 def _ob(n):
